@@ -155,9 +155,13 @@ async def run_c12(spec: dict[str, Any], hist: History, ctx: Ctx) -> None:
                 cmd = b'CLOSE'
             elif k < 0.88:
                 cmd = rng.choice([b'NOOP', b'CHECK'])
-            elif k < 0.94 and mode == 'readonly-mailbox':
+            elif k < 0.91 and mode == 'readonly-mailbox':
                 # into the read-only mailbox by name
                 cmd = b'APPEND Trash ' + lit(make_msg(b'x'))
+            elif k < 0.94 and mode == 'readonly-mailbox':
+                # ... and from the selected read-only mailbox into itself
+                cmd = up + b'COPY ' + sset + b' ' + rng.choice(
+                    [b'Trash', b'Trash', b'"Trash"', b'{5+}\r\nTrash'])
             else:
                 cmd = b'IDLE'
             verb = cmd.split(b' ')[0].decode() if not cmd.startswith(b'UID ') \
@@ -181,6 +185,13 @@ async def run_c12(spec: dict[str, Any], hist: History, ctx: Ctx) -> None:
                 if r.cond == b'OK':
                     hist.report('append-into-readonly-not-refused',
                                 '%r answered OK' % cmd[:60])
+            if verb.endswith('COPY') and b'Trash' in cmd \
+                    and mode == 'readonly-mailbox':
+                ctx.count('into_readonly_attempted')
+                if r.cond == b'OK' and s.shadow.count:
+                    hist.report('copy-into-readonly-not-refused',
+                                '%r answered OK with the read-only mailbox '
+                                'itself selected' % cmd[:60])
             if verb == 'CLOSE':
                 ctx.count('close_checked')
                 closed = r.ok
